@@ -20,7 +20,7 @@ def check(run):
 
     # (a) parse on all byte strings (all 256 values): panic / step-budget monitors only
     for L in range(1, (7 if thorough else 6) + 1):
-        if go(f'parse T1 root, all bytes, L={L}', PARSE + ({'device': 'T1', 'L': L, 'prefixes': False},), 3000 if thorough else 400):
+        if go(f'parse T1 root, all bytes, L={L}', PARSE + ({'device': 'T1', 'L': L, 'prefixes': False},), 3000 if thorough else 400, required=(L <= 6)):
             bounds['parse_all_bytes_L'] = L
     for L in range(1, (6 if thorough else 4) + 1):
         go(f'parse T2 root, all bytes, L={L}', PARSE + ({'device': 'T2', 'L': L, 'prefixes': False},), 900)
@@ -38,7 +38,7 @@ def check(run):
     for N in range(1, (9 if thorough else 6) + 1):
         S = 4 if not thorough else (5 if N <= 5 else 4)
         for L in range(1, S + 1):
-            go(f'process T1 N={N} stream length {L}, all chunkings', FREE + ({'entry': 'process', 'L': L, 'N': N, 'alphabet': ALPHA_C02, 'script': 'big'},), 1500)
+            go(f'process T1 N={N} stream length {L}, all chunkings', FREE + ({'entry': 'process', 'L': L, 'N': N, 'alphabet': ALPHA_C02, 'script': 'big'},), 1500, required=(L <= 4))
         bounds.setdefault('process_N', []).append(N)
     PAY = [ord(c) for c in 'SK "#1\n;A:']
     for N in ((4, 6, 8) if thorough else (4, 6)):
